@@ -245,6 +245,13 @@ func TestVerifC05(t *testing.T) {
 			if i == 0 {
 				c.Chunks = []int{1, 1, 1, 1, 1}
 			}
+			if config == "plain" && i == 2 {
+				// a response larger than any plausible cap on an upload (34 MiB in 1 MiB chunks)
+				c.Chunks, c.Pause, c.CL = nil, 0, false
+				for k := 0; k < 34; k++ {
+					c.Chunks = append(c.Chunks, 1<<20)
+				}
+			}
 			if config == "h2c" && i == 1 {
 				// a stream that outlives any plausible dial / handshake deadline left on the backend connection
 				c.Chunks, c.Pause, c.CL = []int{100, 100, 100, 100}, 3600, false
